@@ -1011,7 +1011,9 @@ def _create_socks_endpoint(reactor, control_protocol, socks_config=None):
 
     socks_endpoint = None
     for p in list(unix_ports) + list(tcp_ports):  # prefer unix-ports
-        if socks_config and p != socks_config:
+        # socks_config is a whole SOCKSPort line; like the existing
+        # ones it is identified by its first word
+        if socks_config and p != socks_config.split()[0]:
             continue
         try:
             socks_endpoint = _endpoint_from_socksport_line(reactor, p)
